@@ -13,6 +13,7 @@ import (
 	"database/sql"
 	"encoding/json"
 	"fmt"
+	"runtime"
 	"sort"
 	"strings"
 
@@ -24,6 +25,7 @@ import (
 	"verif/sim/ops"
 	"verif/sim/simdrv"
 	"verif/sim/simpool"
+	"verif/sim/simrt"
 )
 
 type Step struct {
@@ -149,6 +151,9 @@ func (g *gen) block(depth int) *Block {
 		b.Outcome = "adderror" // `return tx.AddError(err)`: the error is also left on the handle the block was given
 	default:
 		b.Outcome = "panic"
+		if g.r.Chance(20) {
+			b.Outcome = "goexit" // the goroutine ends inside the block (runtime.Goexit, what t.Fatal does): deferred calls run, recover() sees nothing
+		}
 	}
 	n := g.r.Range(1, 5)
 	for i := 0; i < n; i++ {
@@ -336,6 +341,7 @@ type run struct {
 	topReturned  bool
 	commitCalled bool // manual script: Commit() was reached
 	commitErr    error
+	goexited     bool // a block ended its goroutine (runtime.Goexit)
 }
 
 type spEntry struct {
@@ -572,6 +578,11 @@ func (r *run) body(tx *gorm.DB, b *Block, depth int, path string) error {
 	case "adderror":
 		r.nextID++
 		return tx.AddError(&blockErr{r.nextID})
+	case "goexit":
+		// from here on the lock-step model is off: no block returns any more, every
+		// deferred clean-up runs, and the oracle is "nothing durable, nothing left open"
+		r.goexited, r.cancelMode = true, true
+		runtime.Goexit()
 	case "panic":
 		r.nextID++
 		panic(&panicVal{r.nextID})
@@ -854,7 +865,19 @@ func (p Prop) exec(c *Case, faults []*ops.Fault) (*result, error) {
 				pool.CancelAt = first + cf.K
 			}
 		}
-		func() {
+		// the program runs in a goroutine of its own, which a block may end (Goexit)
+		done := make(chan struct{})
+		prevCur := e.Drv.Cur
+		go func() {
+			defer close(done)
+			// this goroutine is the task: its driver calls are the program's, not asynchronous ones
+			me := simrt.Goid()
+			e.Drv.Cur = func() int {
+				if simrt.Goid() == me {
+					return 0
+				}
+				return prevCur()
+			}
 			defer func() {
 				if pv := recover(); pv != nil {
 					res.panicked = true
@@ -870,6 +893,8 @@ func (p Prop) exec(c *Case, faults []*ops.Fault) (*result, error) {
 				r.manual(h)
 			}
 		}()
+		<-done
+		e.Drv.Cur = prevCur
 		if pool != nil {
 			pool.CancelAt = -1
 			res.points = pool.Points
@@ -897,6 +922,12 @@ func (p Prop) exec(c *Case, faults []*ops.Fault) (*result, error) {
 		return nil, sr.DumpErr
 	}
 	got := kvDump(sr.D1)
+	if r.goexited {
+		if want := render(map[string]string{"base": "0"}); got != want {
+			res.viol = &core.Violation{Class: "durable_state", Key: "goexit", Detail: fmt.Sprintf("a block ended its goroutine (runtime.Goexit), yet the table contains {%s} (%s)", got, r.cfgKey())}
+		}
+		return res, nil
+	}
 	if c.HandleErr {
 		// nothing may be written or left open from a handle that already failed,
 		// and the caller must get an error
